@@ -122,3 +122,75 @@ Example C04_name_guard_inhabited :
   let cps := [108;111;99;97;108;32;102;117;110;99;116;105;111;110;32;102;40;97;44;32;46;46;46;41;13;10;32;32;102;111;114;32;105;32;61;32;49;44;32;97;32;100;111;32;108;111;99;97;108;32;115;32;60;99;111;110;115;116;62;32;61;32;34;20013;25991;34;32;101;110;100;10;32;102;111;114;32;107;44;32;118;32;105;110;32;112;97;105;114;115;40;116;41;32;100;111;32;120;46;121;58;109;40;107;41;32;101;110;100;32;45;45;32;99;13;10;32;101;110;100;10;32;102;117;110;99;116;105;111;110;32;111;46;112;58;113;40;122;41;32;114;101;116;117;114;110;32;115;101;108;102;44;32;122;32;101;110;100] in
   forallb scalar cps = true /\ file_class_ok cps = true /\ parsed_names_covered cps = Some (true, 15%nat).
 Proof. repeat split; vm_compute; reflexivity. Qed.
+
+(* ================================================================== Loc order (round 2, agent ast-loc)
+   Proofs/ParserLocKeys.v, ParserLocOrder.v, ParserLocOrderMain.v, ParserLocLaid.v *)
+From LH Require Import Spec.LuaScope Proofs.ParserLocKeys Proofs.ParserLocOrderMain Proofs.ParserLocLaid.
+
+(* the token list the parser sees is key-ordered for line width W: every token is recorded in the one-line form, starts
+   before it ends and ends before the next one starts (key = line * W + column); boolean guard of the theorems below *)
+Definition lexed_ordered (W : Z) (cps : list N) : bool :=
+  match lex_all (fun _ => 0%Z) (utf8_of cps) with Ok ts => tok_ordered_b W (parser_view ts) | _ => false end.
+Definition parsed_locs_ordered (W : Z) (cps : list N) : option (bool * nat) :=
+  match parse_bytes (fun _ => 0%Z) classify_tok (utf8_of cps) with
+  | Ok (PR b _ _) => Some (all_locs_ordered W b, length (locs_block b))
+  | _ => None
+  end.
+
+(* full statement (DESIGN C04_ast_loc_wf, in the form the binder family consumes it): the AST of every error-free file
+   inside the guard is Laid (Spec/LuaScope.v).  REFUTED below: the statement is false for the parser as it is. *)
+Definition C04_ast_loc_wf_full : Prop :=
+  forall gbk classify cps b, forallb scalar cps = true -> file_class_ok cps = true ->
+    parse_bytes gbk classify (utf8_of cps) = Ok (PR b [] []) -> Laid b.
+
+(* local x = a.b(c) : the Loc of a call starts at the LAST token of its callee (finishFuncCallExp takes
+   GetNowTokenLoc after the callee has been parsed): the call a.b(c) is 1:12-1:16 and does not contain a.b (1:10-1:13),
+   so the marks of LuaScope are out of order for every line width *)
+Theorem C04_ast_loc_wf_refuted : ~ C04_ast_loc_wf_full.
+Proof. exact ast_laid_refuted. Qed.
+Print Assumptions C04_ast_loc_wf_refuted.
+
+Example C04_call_loc_excludes_callee :
+  parsed_block laid_wit_cps =
+  Block [SLocal [[120]] [mkLoc 1 6 1 7] [AttrReg]
+           [ECall (EIndex (EName [97] (mkLoc 1 10 1 11)) (EStr [98] (mkLoc 1 12 1 13)) (mkLoc 1 10 1 13)) None
+                  [EName [99] (mkLoc 1 14 1 15)] (mkLoc 1 12 1 16)]
+           (mkLoc 1 0 1 16)] None (mkLoc 1 0 1 16).
+Proof. vm_compute. reflexivity. Qed.
+
+(* do end : the Loc of a do / while / for / function / repeat / chunk block runs from the first token after the opener
+   to the last token before the closer; for an empty block that is `end` .. `do`: start 1:3 AFTER end 1:2 *)
+Example C04_empty_block_loc_inverted :
+  parsed_block [100;111;32;101;110;100] =
+  Block [SDo (Block [] None (mkLoc 1 3 1 2)) (mkLoc 1 0 1 6)] None (mkLoc 1 0 1 6).
+Proof. vm_compute. reflexivity. Qed.
+
+(* proved part, parser level: for EVERY key function, every token list that ends in EOF and is key-ordered, every fuel
+   and numeral classifier - with or without syntax errors: every statement / expression / name Loc and every
+   then / elseif / else block Loc of the returned AST is zero_loc (a synthesized node: default `for` step, malformed
+   numeral) or starts before it ends, not before the first token and not after the last token of the list.
+   Missing for C04_ast_loc_wf: containment of children (false for calls), the plain block Locs (inverted when empty),
+   and the lexer-side proof that files inside file_class_ok yield key-ordered token lists (guard tok_ordered_b). *)
+Theorem C04_ast_locs_within_partial : forall key classify ts, wfr ts -> TokOrd key ts -> forall fuel b le pe,
+  parse_tokens classify fuel ts = Ok (PR b le pe) ->
+  WithinL key (lo key (SL (first_tok ts))) (locs_block b) (hi key (SL (last_tok ts))).
+Proof. exact parse_tokens_locs_within. Qed.
+Print Assumptions C04_ast_locs_within_partial.
+
+(* the same from the bytes, key = line * W + column: start <= end for every such Loc *)
+Theorem C04_ast_locs_ordered_partial : forall W gbk classify bs ts b le pe,
+  lex_all gbk bs = Ok ts -> tok_ordered_b W (parser_view ts) = true ->
+  parse_bytes gbk classify bs = Ok (PR b le pe) ->
+  all_locs_ordered W b = true.
+Proof. exact ast_locs_ordered. Qed.
+Print Assumptions C04_ast_locs_ordered_partial.
+
+(* non-vacuity of the guard: the 35 Locs of the example file above; and a file WITH syntax errors (16 Locs) *)
+Example C04_locs_guard_inhabited :
+  let cps := [108;111;99;97;108;32;102;117;110;99;116;105;111;110;32;102;40;97;44;32;46;46;46;41;13;10;32;32;102;111;114;32;105;32;61;32;49;44;32;97;32;100;111;32;108;111;99;97;108;32;115;32;60;99;111;110;115;116;62;32;61;32;34;20013;25991;34;32;101;110;100;10;32;102;111;114;32;107;44;32;118;32;105;110;32;112;97;105;114;115;40;116;41;32;100;111;32;120;46;121;58;109;40;107;41;32;101;110;100;32;45;45;32;99;13;10;32;101;110;100;10;32;102;117;110;99;116;105;111;110;32;111;46;112;58;113;40;122;41;32;114;101;116;117;114;110;32;115;101;108;102;44;32;122;32;101;110;100] in
+  lexed_ordered 1000 cps = true /\ parsed_locs_ordered 1000 cps = Some (true, 35%nat).
+Proof. split; vm_compute; reflexivity. Qed.
+Example C04_locs_guard_inhabited_errors :
+  let cps := [108;111;99;97;108;32;49;32;61;32;50;32;105;102;32;120;32;116;104;101;110;32;101;108;115;101;32;101;110;100;32;100;111;32;101;110;100;32;120;32;61;32;97;46;98;40;99;41;32;41] in
+  lexed_ordered 1000 cps = true /\ parsed_locs_ordered 1000 cps = Some (true, 16%nat).
+Proof. split; vm_compute; reflexivity. Qed.
